@@ -284,6 +284,32 @@ def object_case(c):
                 except Exception as e:
                     run['dtype_dev'][dtn] = 'raised %s' % type(e).__name__
             run['dtype_scale'] = float(np.max(np.abs(d64)))
+        if t == 1:
+            # the caller's arrays may be views: the potential the real part of a complex buffer or a plane of a 3-D
+            # block, the out array Fortran-ordered or a plane of a [z, r, theta] block; `phi` must stay what it was
+            run['storage_dev'] = {}
+            for sn in ('phi-real-of-complex/der-fortran', 'phi-plane/der-plane', 'phi-contiguous/der-transposed-buffer'):
+                if sn.startswith('phi-real'):
+                    pv = (phi + 1j * np.roll(phi, 1, axis=1)).real
+                elif sn.startswith('phi-plane'):
+                    b3 = np.full((nz, 3, nq), np.nan)
+                    b3[:, 1, :] = phi
+                    pv = b3[:, 1, :]
+                else:
+                    pv = phi.copy()
+                if 'der-fortran' in sn:
+                    dv_ = np.asfortranarray(np.full((nz, nq), np.nan))
+                elif 'der-plane' in sn:
+                    dv_ = np.full((nz, 2, nq), np.nan)[:, 0, :]
+                else:
+                    dv_ = np.full((nq, nz), np.nan).T
+                try:
+                    pg.parallel_gradient(pv, ri, dv_)
+                    same = np.array_equal(dv_, der) and np.array_equal(pv, phi)
+                    run['storage_dev'][sn] = 0.0 if same else ('potential modified' if not np.array_equal(pv, phi) else
+                                                               float(np.nan_to_num(np.abs(dv_ - der), nan=np.inf).max()))
+                except Exception as e:
+                    run['storage_dev'][sn] = 'raised %s' % type(e).__name__
         out['runs'].append(run)
     return out
 
@@ -418,6 +444,12 @@ def judge_object(chk, c, o, answers):
                 chk.violation('parallel_gradient:potential-dtype:%s' % dtn,
                               'the same integer-valued potential held as %s gives a gradient that differs from the float64 one by %s' % (dtn, dv),
                               {'case': desc, 'r_index': ri, 'dtype': dtn, 'deviation': dv})
+        for sn, dv in sorted(rn.get('storage_dev', {}).items()):
+            chk.count(('storage', c['k'], ri, sn), stratum='pargrad-float/caller-arrays/%s' % sn)
+            if dv != 0.0:
+                chk.violation('parallel_gradient:caller-arrays:%s' % sn,
+                              'the same potential and out array held as %s: the out array differs from the one of the call on contiguous arrays by %s' % (sn, dv),
+                              {'case': desc, 'r_index': ri, 'storage': sn, 'deviation': dv})
         if 'zshift_dev' in rn:
             if rn['zshift_dev'] > 2 * tol:
                 chk.violation('parallel_gradient:z-shift', 'does not commute with a circular z shift: %.3g' % rn['zshift_dev'], rep)
